@@ -33,6 +33,7 @@ def run(ctx: Ctx):
     ctx.assumptions = ["element ids are distinct within a dimension"]
     valid_index_selection(ctx)
     valid_idxs_table(ctx)
+    valid_idxs_single_mesh(ctx)
     response_edits(ctx)
     valid_elements_chain(ctx)
     nan_mapping(ctx)
@@ -172,6 +173,36 @@ def response_edits(ctx: Ctx):
         hits = [t for fn in fns for _l, t in IS.zip_filter_mismatch(fn)]
         ctx.ob("response-edit.pairing", where, hits or "no zip of a filtered sequence with a whole payload list", "each count is paired with the element it belongs to", not hits,
                "a missing element that is not the last one shifts every later count onto another row")
+
+
+def valid_idxs_single_mesh(ctx: Ctx):
+    """The valid-element selection is ONE open mesh over ALL dimensions (`np.ix_` of every dimension's offsets): every item of
+    the index tuple is then an index array, and numpy keeps the axes where they are.  An index tuple that mixes BASIC SLICES
+    with index arrays follows another rule: index arrays separated by a slice are broadcast together and their axes are
+    moved to the FRONT of the result - a 3-D cube whose table and columns dimensions need an array while the rows
+    dimension gets a slice comes out as (table, columns, rows)."""
+    from ..stmts import reachable_functions
+
+    cube = ctx.repo.cls("cube.py", "Cube")
+    where = "cube.py::Cube._valid_idxs [index tuple]"
+    if ctx.repo.lookup(cube, "_valid_idxs") is None:
+        raise AnalysisError("Cube._valid_idxs vanished")
+    slices, meshes = [], 0
+    for fn in reachable_functions(ctx.repo, cube, "_valid_idxs"):
+        for n in ast.walk(fn):
+            if isinstance(n, ast.Call) and u(n.func) == "slice":
+                slices.append(u(n)[:40])
+            elif isinstance(n, ast.Subscript) and u(n.value) in ("np.s_", "np.index_exp"):
+                slices.append(u(n)[:40])
+            elif isinstance(n, ast.Call) and u(n.func) == "np.ix_":
+                meshes += 1
+    if slices and meshes:
+        ctx.violated("valid-idxs.single-mesh", where, f"basic slices {sorted(set(slices))} next to {meshes} np.ix_ mesh(es)", "one open mesh over all dimensions (index arrays only)",
+                     "index arrays separated by a basic slice are moved to the front of the result: the filtered measure array is no longer (table, rows, columns)")
+    elif meshes:
+        ctx.held("valid-idxs.single-mesh", where, f"{meshes} np.ix_ mesh(es), no basic slice in the index tuple", "index arrays only")
+    else:
+        ctx.undecided("valid-idxs.single-mesh", where, "no np.ix_ mesh found", "one open mesh over all dimensions")
 
 
 def valid_idxs_table(ctx: Ctx):
